@@ -6,7 +6,7 @@
    implementation by the correspondence check of harness/c11.py):
 
    (a) NumericalHessianCalculator / HybridHessianCalculator as a state machine over an arbitrary
-       field: _calculated_rows, the generator _idxs_to_calculate with its side effect, placement of
+       field: _calculated_rows (a row is marked right AFTER it is stored), the generator _idxs_to_calculate, placement of
        rows (serial loop and process-pool branch), forward / central difference rows from a
        gradient oracle [grad : method -> geometry -> vector], the two passes of the hybrid
        calculator, the symmetrising `hessian` property.
@@ -49,19 +49,12 @@ Definition displaced (x : vec) (i k : nat) (plus : bool) (h : F) : vec :=
 Record st : Type := mkSt { calc_rows : list nat;     (* self._calculated_rows *)
                            hess : mat }.             (* self._hessian         *)
 
-(* _idxs_to_calculate: a generator; every row index not yet in _calculated_rows is APPENDED to it
-   and (atom_idx, component) is yielded.  Returns the yielded list and the final _calculated_rows.
-   (In the serial loop the generator is consumed lazily; the loop body never touches
-   _calculated_rows, so the interleaving is unobservable.) *)
-Fixpoint idxs_from (rows : list nat) (calc : list nat) : list (nat * nat) * list nat :=
-  match rows with
-  | [] => ([], calc)
-  | r :: rs =>
-      if mem r calc then idxs_from rs calc
-      else let '(l, c) := idxs_from rs (calc ++ [r]) in ((gen_atom_idx r, gen_component r) :: l, c)
-  end.
-Definition idxs_to_calculate (n_atoms : nat) (calc : list nat) : list (nat * nat) * list nat :=
-  idxs_from (seq 0 (gen_n_rows n_atoms)) calc.
+(* _idxs_to_calculate: a generator WITHOUT side effect: (atom_idx, component) of every row index that is not in
+   _calculated_rows at the moment it is reached. *)
+Definition idxs_of (rows : list nat) (calc : list nat) : list (nat * nat) :=
+  map (fun r => (gen_atom_idx r, gen_component r)) (filter (fun r => negb (mem r calc)) rows).
+Definition idxs_to_calculate (n_atoms : nat) (calc : list nat) : list (nat * nat) :=
+  idxs_of (seq 0 (gen_n_rows n_atoms)) calc.
 
 (* self._hessian[r, :] = v *)
 Definition set_row (H : mat) (r : nat) (v : vec) : mat :=
@@ -78,24 +71,37 @@ Definition cdiff_row (m : Meth) (x : vec) (h : F) (i k : nat) : vec :=
 Definition row_fn (cdiff : bool) (m : Meth) (x g0 : vec) (h : F) (i k : nat) : vec :=
   if cdiff then cdiff_row m x h i k else diff_row m x g0 h i k.
 
-(* the (row index, row) results of one calculate() call, in the order of the generator *)
+(* one (row index, row) result; g0 = self._init_gradient = self._gradient(self._species), evaluated by calculate()
+   BEFORE any row and read only when not cdiff *)
+Definition job_of (row_of : nat -> nat -> nat) (cdiff : bool) (m : Meth) (x : vec) (h : F) (ik : nat * nat) : nat * vec :=
+  let g0 := grad m x in (row_of (fst ik) (snd ik), row_fn cdiff m x g0 h (fst ik) (snd ik)).
 Definition jobs_of (row_of : nat -> nat -> nat) (cdiff : bool) (m : Meth) (x : vec) (h : F)
-                   (idxs : list (nat * nat)) : list (nat * vec) :=
-  let g0 := grad m x in     (* self._init_gradient = self._gradient(self._species); read only when not cdiff *)
-  map (fun ik => (row_of (fst ik) (snd ik), row_fn cdiff m x g0 h (fst ik) (snd ik))) idxs.
+                   (idxs : list (nat * nat)) : list (nat * vec) := map (job_of row_of cdiff m x h) idxs.
 
-(* calculate(): the results are stored in the order in which [collect] hands them over.
-   - _calculate_in_serial (run in a child process): collect = identity, index gen_row_serial;
-   - process-pool branch: every job is evaluated by some worker (a pure function of (i,k): which
-     worker, and when, cannot influence the value); the parent stores them in job order,
-     collect = identity, index gen_row_parallel.
-   [collect] generalises both to ANY order of completion / any split over workers. *)
+(* process-pool branch of calculate(): the job list is built first (the generator is consumed against the
+   _calculated_rows of that moment); every job is evaluated by some worker (a pure function of (i,k): which worker,
+   and when, cannot influence the value); then each result is stored at its row index and that index is appended to
+   _calculated_rows.  [collect] = the order in which results are handed over (identity in the code; any order /
+   any split over workers in the theorems). *)
 Definition calculate_gen (row_of : nat -> nat -> nat) (collect : list (nat * vec) -> list (nat * vec))
                          (cdiff : bool) (m : Meth) (x : vec) (h : F) (n_atoms : nat) (s : st) : st :=
-  let '(idxs, calc') := idxs_to_calculate n_atoms (calc_rows s) in
-  mkSt calc' (place (hess s) (collect (jobs_of row_of cdiff m x h idxs))).
-Definition calculate_serial := calculate_gen gen_row_serial (fun l => l).
+  let res := collect (jobs_of row_of cdiff m x h (idxs_to_calculate n_atoms (calc_rows s))) in
+  mkSt (calc_rows s ++ map fst res) (place (hess s) res).
 Definition calculate_parallel := calculate_gen gen_row_parallel (fun l => l).
+
+(* _calculate_in_serial (taken when calculate() runs inside a worker process): the generator is consumed lazily, each
+   row is evaluated, stored at gen_row_serial and then marked (gen_mark_serial) before the next index is tested *)
+Fixpoint serial_loop (job : nat * nat -> nat * vec) (rows : list nat) (s : st) : st :=
+  match rows with
+  | [] => s
+  | r :: rs =>
+      if mem r (calc_rows s) then serial_loop job rs s
+      else let ik := (gen_atom_idx r, gen_component r) in
+           serial_loop job rs (mkSt (calc_rows s ++ [gen_mark_serial (fst ik) (snd ik)])
+                                    (set_row (hess s) (fst (job ik)) (snd (job ik))))
+  end.
+Definition calculate_serial (cdiff : bool) (m : Meth) (x : vec) (h : F) (n_atoms : nat) (s : st) : st :=
+  serial_loop (job_of gen_row_serial cdiff m x h) (seq 0 (gen_n_rows n_atoms)) s.
 
 (* the `hessian` property: symmetrises self._hessian IN PLACE and returns it *)
 Definition hessian_prop (s : st) : st := mkSt (calc_rows s) (gen_symmetrise E (hess s)).
@@ -213,6 +219,21 @@ Definition n_v (n_atoms : nat) (collinear : bool) : Z := gen_n_v n_atoms (n_tr n
 Definition Qc_eqb (a b : Qc) : bool := Qeq_bool (this a) (this b).
 Definition envQ (sq : Qc -> Qc) (pi : Qc) : fenv :=
   mkFenv Qc (Q2Qc 0) (Q2Qc 1) Qcplus Qcmult Qcminus Qcopp Qcdiv Qcinv Qcltb Qc_eqb sq Qcabs pi.
+
+(* Hessian.frequencies_proj is a functools.cached_property (gen_cached_properties): the FIRST access stores the list on
+   the object, later accesses return the stored list whatever Config.freq_scale_factor has become.
+   [cache] = the stored value (None before the first access); returns (value seen by the caller, new cache). *)
+Definition is_cached (name : string) : bool := existsb (String.eqb name) gen_cached_properties.
+Definition access (name : string) (cache : option (list Qc)) (compute : list Qc) : list Qc * option (list Qc) :=
+  if is_cached name then match cache with Some v => (v, cache) | None => (compute, Some compute) end
+  else (compute, cache).
+(* two successive accesses of frequencies_proj on one object, the configured scale being s1 then s2 *)
+Definition freqs_twice (sq : Qc -> Qc) (pi s1 s2 : Qc) (n_atoms : nat) (collinear : bool) (lambdas : list Qc)
+  : list Qc * list Qc :=
+  let f := fun s => gen_frequencies_proj (envQ sq pi) (gen_freq (envQ sq pi) s)
+                      (gen_n_tr (are_linear n_atoms collinear)) lambdas in
+  let '(r1, c1) := access "frequencies_proj" None (f s1) in
+  let '(r2, _) := access "frequencies_proj" c1 (f s2) in (r1, r2).
 
 (* witness gradient of Props.hybrid_columns_high_level_refuted: the high-level method couples coordinates
    0 and 3 (d g_3 / d x_0 = d g_0 / d x_3 = 1), the low-level gradient vanishes *)
